@@ -17,6 +17,7 @@ from __future__ import annotations
 import ast
 from typing import Any, Dict, List, Optional, Set
 
+from engine.srcmatch import U
 from engine.model import AnalysisError, Program, dotted, walk_no_nested
 
 LEVEL = 'other'
@@ -54,7 +55,7 @@ def run(ctx: Any, prog: Program) -> None:
         raise AnalysisError('IDMan.get_id has no return')
     for r in rets:
         if not isinstance(r.value, ast.Name):
-            ctx.check('C08.D1', False, vm, r, 'get_id must return a plain variable that was reserved', text='return ' + ast.unparse(r.value) if r.value else 'return')
+            ctx.check('C08.D1', False, vm, r, 'get_id must return a plain variable that was reserved', text='return ' + U(r.value) if r.value else 'return')
             continue
         var = r.value.id
         # the enclosing block must contain self._used.add(var) before the return
@@ -71,14 +72,14 @@ def run(ctx: Any, prog: Program) -> None:
                         added = True
         ctx.check('C08.D1', added, vm, r, f'`return {var}` is not preceded in its block by self._used.add({var}): the id would be handed out again', text=f'return {var} reserved')
         # guard: tested as free
-        guard = ast.unparse(p.test) if isinstance(p, ast.If) else ''
+        guard = U(p.test) if isinstance(p, ast.If) else ''
         free = (f'{var} not in self' in guard) or (f'{var} not in self._used' in guard)
         if not free and blk is not None:
             # `while var in self: var += 1` before the return: the loop can only be left with var free
             for st in blk[:blk.index(r)]:
-                if isinstance(st, ast.While) and ast.unparse(st.test) in (f'{var} in self', f'{var} in self._used') and not any(isinstance(x, ast.Break) for x in ast.walk(st)):
+                if isinstance(st, ast.While) and U(st.test) in (f'{var} in self', f'{var} in self._used') and not any(isinstance(x, ast.Break) for x in ast.walk(st)):
                     free = True
-                    guard = 'exit of `while ' + ast.unparse(st.test) + '`'
+                    guard = 'exit of `while ' + U(st.test) + '`'
         if free:
             ctx.check('C08.D1', True, vm, r, f'`return {var}` is reached only with {var} free ({guard})', text=f'return {var} tested free')
         else:
@@ -92,7 +93,7 @@ def run(ctx: Any, prog: Program) -> None:
             tested_between = fresh_def is not None and any(isinstance(n, ast.Compare) and isinstance(n.ops[0], (ast.In, ast.NotIn)) and dotted(n.left) == var
                                                              for st in blk[blk.index(fresh_def) + 1:blk.index(r)] for n in ast.walk(st))
             if fresh_def is not None and not tested_between:
-                ctx.check('C08.D1', False, vm, r, f'`{ast.unparse(fresh_def)}` is returned without being tested against the ids in use (guard of the block: `{guard}`): an id that was re-acquired explicitly in the meantime is handed out a second time',
+                ctx.check('C08.D1', False, vm, r, f'`{U(fresh_def)}` is returned without being tested against the ids in use (guard of the block: `{guard}`): an id that was re-acquired explicitly in the meantime is handed out a second time',
                           text=f'return {var} tested free')
             elif tests_var:
                 ctx.shape('C08.D1', False, vm, r, f'how `return {var}` is guarded by the membership test is not recognised (guard: `{guard}`)', text=f'return {var} tested free')
@@ -129,7 +130,7 @@ def run(ctx: Any, prog: Program) -> None:
                     why = 'must be set to the returned id + 1'
                 else:
                     p = vm.parents.get(n)
-                    tsrc = ast.unparse(p.test).replace(' ', '') if isinstance(p, ast.If) else ''
+                    tsrc = U(p.test).replace(' ', '') if isinstance(p, ast.If) else ''
                     vn = v.id if isinstance(v, ast.Name) else '?'
                     below = tsrc in (f'{vn}<self.search_pos', f'0<{vn}<self.search_pos', f'1<={vn}<self.search_pos', f'{vn}>0and{vn}<self.search_pos', f'{vn}>=1and{vn}<self.search_pos')
                     positive = tsrc != f'{vn}<self.search_pos' or any(isinstance(c, ast.Call) and isinstance(c.func, ast.Attribute) and c.func.attr == 'remove' and dotted(c.func.value) == 'self._used'
@@ -177,7 +178,7 @@ def run(ctx: Any, prog: Program) -> None:
                         tgts = n.targets if isinstance(n, ast.Assign) else [n.target]
                         for t in tgts:
                             if isinstance(t, ast.Attribute) and t.attr == 'id' and dotted(t) != 'self.id':
-                                ctx.check('C08.D2', False, mod, n, f'`{ast.unparse(t)}` re-assigns an object id outside its constructor (bypasses the id manager)', func=qual)
+                                ctx.check('C08.D2', False, mod, n, f'`{U(t)}` re-assigns an object id outside its constructor (bypasses the id manager)', func=qual)
     # ---- D3 --------------------------------------------------------------------------------------------
     for cname, mgr in MANAGERS.items():
         meths = vm.methods(cname)
@@ -203,22 +204,22 @@ def run(ctx: Any, prog: Program) -> None:
                     if isinstance(n, ast.Assign):
                         for t in n.targets:
                             if isinstance(t, ast.Attribute) and t.attr in ('map', 'vmf') and not (isinstance(t.value, ast.Name) and t.value.id == 'self'):
-                                ctx.check('C08.D3', False, mod, n, f'`{ast.unparse(t)}` re-parents a map object; its id stays registered with the old map', func=qual)
+                                ctx.check('C08.D3', False, mod, n, f'`{U(t)}` re-parents a map object; its id stays registered with the old map', func=qual)
     # VMF.__init__ gives each manager its own instance, NullIDMan only when preserve_ids
     init = vm.func('VMF.__init__')
     made = {}
     for n in walk_no_nested(init):
         if isinstance(n, ast.Assign) and len(n.targets) == 1 and isinstance(n.targets[0], ast.Attribute) and n.targets[0].attr in ALL_MGRS:
-            made[n.targets[0].attr] = ast.unparse(n.value)
+            made[n.targets[0].attr] = U(n.value)
     ctor_names = {v for v in made.values() if v.endswith('()')}
     ok_vals = all(v.endswith('()') or v in {f'self.{m}' for m in ALL_MGRS} for v in made.values())
     ctx.check('C08.D3', set(made) == ALL_MGRS and len(ctor_names) == 1 and ok_vals, vm, init,
               f'VMF.__init__ must give every kind a manager built by the selected manager class (sharing one between kinds is fine); found {made}', text='six managers')
-    sel = [n for n in walk_no_nested(init) if isinstance(n, ast.Assign) and isinstance(n.value, ast.IfExp) and 'IDMan' in ast.unparse(n.value)]
+    sel = [n for n in walk_no_nested(init) if isinstance(n, ast.Assign) and isinstance(n.value, ast.IfExp) and 'IDMan' in U(n.value)]
     if len(sel) != 1 or dotted(sel[0].value.test) != 'preserve_ids':
         ctx.shape('C08.D3', False, vm, sel[0] if sel else init, 'manager class selection on preserve_ids not recognised', text='manager class selection')
     else:
-        ctx.check('C08.D3', dotted(sel[0].value.body) == 'NullIDMan' and dotted(sel[0].value.orelse) == 'IDMan', vm, sel[0], f'`{ast.unparse(sel[0].value)}`: the uniqueness-enforcing IDMan must be used unless preserve_ids is set',
+        ctx.check('C08.D3', dotted(sel[0].value.body) == 'NullIDMan' and dotted(sel[0].value.orelse) == 'IDMan', vm, sel[0], f'`{U(sel[0].value)}`: the uniqueness-enforcing IDMan must be used unless preserve_ids is set',
                   text='manager class selection')
     # destination map chosen by truthiness (`vmf_file or self.map`): sound only while a VMF object can never be falsy
     vmf_cls = vm.cls('VMF')
@@ -226,11 +227,11 @@ def run(ctx: Any, prog: Program) -> None:
     n_sel = 0
     for qual, fns in vm.all_funcs().items():
         for fn in fns:
-            opt_vmf = {a.arg for a in fn.args.args + fn.args.kwonlyargs if a.annotation is not None and 'VMF' in ast.unparse(a.annotation)}
+            opt_vmf = {a.arg for a in fn.args.args + fn.args.kwonlyargs if a.annotation is not None and 'VMF' in U(a.annotation)}
             for n in walk_no_nested(fn):
                 if isinstance(n, ast.BoolOp) and isinstance(n.op, ast.Or) and isinstance(n.values[0], ast.Name) and n.values[0].id in opt_vmf:
                     n_sel += 1
-                    ctx.check('C08.D3', not falsy_hooks, vm, n, f'`{ast.unparse(n)}` selects the destination map by truthiness, but VMF defines {[h.name for h in falsy_hooks]}: an empty destination map is falsy, '
+                    ctx.check('C08.D3', not falsy_hooks, vm, n, f'`{U(n)}` selects the destination map by truthiness, but VMF defines {[h.name for h in falsy_hooks]}: an empty destination map is falsy, '
                               'the copy is created in (and takes its id from) the source map and then collides with ids the destination hands out', func=qual, text=f'{qual}: destination chosen by `or`')
                 if isinstance(n, ast.IfExp) and isinstance(n.test, ast.Compare) and isinstance(n.test.left, ast.Name) and n.test.left.id in opt_vmf and isinstance(n.test.ops[0], (ast.Is, ast.IsNot)) \
                         and isinstance(n.test.comparators[0], ast.Constant) and n.test.comparators[0].value is None:
@@ -257,7 +258,7 @@ def run(ctx: Any, prog: Program) -> None:
                                   'deletion) - by then it may belong to another entity, which then shares its id with the next node created', func=qual, text=f'node_id.{meth} in {qual}')
                         continue
                     owner = [c for c, m in MANAGERS.items() if m == mgr][0]
-                    arg = ast.unparse(call.args[0]) if call.args else ''
+                    arg = U(call.args[0]) if call.args else ''
                     ok = name == '__del__' and qual.split('.')[0] == owner and arg == 'self.id'
                     ctx.check('C08.D4', ok, mod, n,
                               f'{mgr}.{meth}({arg}) in {qual}: an object id may only be released by {owner}.__del__; releasing it while the object is still '
@@ -279,7 +280,7 @@ def run(ctx: Any, prog: Program) -> None:
                         st = mod.parents.get(st)
                     via_setitem = isinstance(st, ast.Assign) and any(isinstance(t, ast.Subscript) and not (dotted(t.value) or '').endswith('_keys') and isinstance(t.slice, ast.Constant)
                                                                      and str(t.slice.value).casefold() == 'nodeid' for t in st.targets)
-                    ctx.check('C08.D4', not via_setitem, mod, n, f'`{ast.unparse(st)[:80]}` in {qual} reserves a node id and then stores it through Entity.__setitem__, which releases the '
+                    ctx.check('C08.D4', not via_setitem, mod, n, f'`{U(st)[:80]}` in {qual} reserves a node id and then stores it through Entity.__setitem__, which releases the '
                               'current number (possibly held by another entity by now) and reserves once more', func=qual, text=f'node_id.get_id stored through __setitem__ in {qual}')
     # ... and __setitem__ is the only way a keyvalue gets into an entity: it is the one place a `nodeid` value is reserved, so a bulk store
     # (`self._keys.update(other)`, `self._keys[k] = v` elsewhere) creates an entity that carries a node id nobody reserved
@@ -294,7 +295,7 @@ def run(ctx: Any, prog: Program) -> None:
             if direct is None:
                 continue
             n_store += 1
-            ctx.check('C08.D4', mname == '__setitem__', vm, direct, f'Entity.{mname} stores keyvalues with `{ast.unparse(direct)[:60]}`, bypassing __setitem__: a `nodeid` among them is kept verbatim and never reserved in '
+            ctx.check('C08.D4', mname == '__setitem__', vm, direct, f'Entity.{mname} stores keyvalues with `{U(direct)[:60]}`, bypassing __setitem__: a `nodeid` among them is kept verbatim and never reserved in '
                       'VMF.node_id, so a copy shares its node id with the original (and releases it when it is collected)', func=f'Entity.{mname}', text=f'Entity.{mname}: key store written directly')
     if n_store < 2:
         raise AnalysisError(f'only {n_store} direct key-store writes found in Entity (the two arms of __setitem__ confirmed by hand)')
@@ -302,16 +303,16 @@ def run(ctx: Any, prog: Program) -> None:
         raise AnalysisError(f'only {n_acq} node_id.get_id call sites found (Entity.__setitem__ and Instance.fixup_key confirmed by hand)')
     # ---- D5 --------------------------------------------------------------------------------------------
     fi = vm.func('EntityFixup.__init__')
-    src = ast.unparse(fi)
+    src = U(fi)
     ok = 'if fix.id not in used_indexes' in src and 'used_indexes.add(fix.id)' in src
     loops = [n for n in walk_no_nested(fi) if isinstance(n, ast.For)]
     ok2 = any(isinstance(s, ast.Assign) and isinstance(s.targets[0], ast.Subscript) and dotted(s.targets[0].value) == 'self' for l in loops for s in ast.walk(l))
     ctx.shape('C08.D5', ok and ok2, vm, fi, 'EntityFixup.__init__ must keep an index only if unused so far and re-insert the rest through self[var] = value', text='init de-duplicates indexes')
     # the re-insertion must be deferred until every first-pass value is stored: __setitem__ picks the lowest index unused *so far*
-    first_pass = [l for l in loops if 'used_indexes' in ast.unparse(l.body[0] if l.body else l)]
+    first_pass = [l for l in loops if 'used_indexes' in U(l.body[0] if l.body else l)]
     early = [s for l in first_pass for s in ast.walk(l) if isinstance(s, ast.Assign) and isinstance(s.targets[0], ast.Subscript) and dotted(s.targets[0].value) == 'self']
-    reserves = any('used_indexes.add' in ast.unparse(s) and 'self[' not in ast.unparse(s) for l in first_pass for s in l.body) and \
-        any(isinstance(c, ast.Call) and dotted(c.func) == 'used_indexes.add' and 'fix.id' not in ast.unparse(c) for l in first_pass for c in ast.walk(l))
+    reserves = any('used_indexes.add' in U(s) and 'self[' not in U(s) for l in first_pass for s in l.body) and \
+        any(isinstance(c, ast.Call) and dotted(c.func) == 'used_indexes.add' and 'fix.id' not in U(c) for l in first_pass for c in ast.walk(l))
     ctx.check('C08.D5', not early or reserves, vm, early[0] if early else fi,
               'a colliding fixup is re-indexed through self[...] = ... inside the first pass: the lowest index unused *so far* may be the legitimate index of a later entry, '
               'which then keeps it too (two variables share one replaceNN)', text='init defers re-indexing of duplicates')
@@ -337,7 +338,7 @@ def run(ctx: Any, prog: Program) -> None:
         for n in ast.walk(scope):
             if isinstance(n, ast.Assign) and n.value is sc and isinstance(n.targets[0], ast.Name):
                 idxvar = n.targets[0].id
-        elt_ok = isinstance(sc.elt, ast.Attribute) and sc.elt.attr == 'id' and ast.unparse(sc.generators[0].iter) == 'self._fixup.values()' and not sc.generators[0].ifs
+        elt_ok = isinstance(sc.elt, ast.Attribute) and sc.elt.attr == 'id' and U(sc.generators[0].iter) == 'self._fixup.values()' and not sc.generators[0].ifs
         t = wl.test
         loop_ok = isinstance(t, ast.Compare) and isinstance(t.ops[0], ast.In) and dotted(t.comparators[0]) == idxvar and isinstance(t.left, ast.Name) \
             and len(wl.body) == 1 and isinstance(wl.body[0], ast.AugAssign) and isinstance(wl.body[0].op, ast.Add) and dotted(wl.body[0].target) == t.left.id \
